@@ -60,6 +60,7 @@ Definition run_socks (c : list N) : list N :=
       | Some (a, port :: data) => put_lp (udp_relay_response a port data) ++ [1]
       | _ => MALFORMED
       end
-  | 7 :: i => match client_dialog5 i with Some o => put_lp o | None => MALFORMED end
+  | 7 :: i => match client_dialog i with Some o => put_lp o | None => MALFORMED end
+  | 8 :: i => match client_connect i with Some (reply, h, port) => put_lp reply ++ put_lp h ++ [port] | None => MALFORMED end
   | _ => MALFORMED
   end.
